@@ -146,6 +146,26 @@ CURATED += [
     ('assign-nearest-3-levels', 'n := @h1@\n{\n    n := @h2@\n    {\n        {\n            n = @h3@\n            n += 1\n        }\n        print(n)\n    }\n    print(n)\n}\nprint(n)\nfn f(n) {\n    for [i, v] in [1, 2] {\n        n += v\n    }\n    return n\n}\nprint(f(@h4@))\nprint(n)\n'),
     ('call-in-loop-fresh', 'fn mk(k) {\n    loc := k\n    return fn () {\n        loc += 1\n        return loc\n    }\n}\ncs := []\ni := 0\nwhile i < 2 {\n    cs += [mk(i * 100)]\n    i += 1\n}\nprint(cs[0]())\nprint(cs[1]())\nprint(cs[0]())\n'),
 ]
+def construct_scopes():
+    """every block-introducing construct: a declaration inside does not leak, shadowing an enclosing name is allowed and leaves it
+    untouched, a closure created before still sees the outer variable"""
+    cons = {
+        'block': ('{', '}'), 'if': ('if true {', '}'), 'elif': ('if false {\n    print(0)\n} else if true {', '}'), 'else': ('if false {\n    print(0)\n} else {', '}'),
+        'else-after-elif': ('if false {\n    print(0)\n} else if false {\n    print(0)\n} else {', '}'), 'while': ('w := 0\nwhile w < 1 {\n    w += 1', '}'), 'for': ('for [fk, fv] in [1] {', '}'),
+        'fn': ('fn body() {', '}\nbody()'), 'anon': ('ab := fn () {', '}\nab()'), 'method': ('mo := {"m": fn () {', '}}\nmo.m()'), 'nested-if-in-while': ('w := 0\nwhile w < 1 {\n    w += 1\n    if true {', '    }\n}'),
+    }
+    ts = []
+    for name, (op, cl) in cons.items():
+        body = ['inner := @h2@', 'x := @h3@', 'print(x)', 'print(seex())', 'x = x + 1', 'print(inner)']
+        src = ['x := @h1@', 'fn seex() {', '    return x', '}'] + op.split('\n') + ['    ' + l for l in body] + cl.split('\n') + ['print(x)', 'print(seex())', 'if @b1@ {', '    print(inner)', '}', 'inner := @h4@', 'x := 0']
+        ts.append({'name': 'construct-scope-' + name, 'src': '\n'.join(src) + '\n'})
+    return ts
+
+CURATED += [
+    ('own-name-reassigned', 'fn tick(n) {\n    if n == 0 {\n        return "original reached zero"\n    }\n    return tick(n - 1)\n}\nold := tick\nprint(old(@h1@))\ntick = fn (n) {\n    return "replacement called"\n}\nprint(old(1))\nprint(tick(1))\n'),
+    ('own-name-assigned-inside', 'fn disable() {\n    disable = null\n    return 1\n}\nprint(disable())\nprint(disable)\nfn counter() {\n    counter = @h1@\n}\ncounter()\nprint(counter)\n'),
+    ('own-name-shadow', 'fn f(f) {\n    return f\n}\nprint(f(@h1@))\nfn g() {\n    g := @h2@\n    return g\n}\nprint(g())\nprint(g())\n'),
+]
 def destructure_assign_kinds():
     pats = [('[a, b]', '[1, 2]'), ('[a, ..r]', '[1, 2, 3]'), ('{a}', '{"a": 1}'), ('{"k": a}', '{"k": 1}'), ('{a, ..r}', '{"a": 1, "b": 2}'), ('[a, [b]]', '[1, [2]]'), ('[a, {b}]', '[1, {"b": 2}]'), ('{"k": [a, ..r]}', '{"k": [1, 2]}')]
     ts = []
@@ -194,10 +214,11 @@ def templates(tier, seed=0):
     ts = []
     for name, src in CURATED:
         if name == 'redeclare-kinds': continue
-        assume = (lambda v: [v['h1'] >= -1, v['h1'] <= 4]) if name == 'fn-recursion' else None
+        assume = (lambda v: [v['h1'] >= -1, v['h1'] <= 4]) if name == 'fn-recursion' else (lambda v: [v['h1'] >= 0, v['h1'] <= 3]) if name == 'own-name-reassigned' else None
         ts.append({'name': name, 'src': src, 'assume': assume}); ts.append({'name': name + '~renamed', 'src': rename(src), 'assume': assume})
     ts += redeclare_kinds()
     ts += destructure_assign_kinds()
+    ts += construct_scopes()
     ts += nonbindable()
     n = 80 if tier == 'quick' else 400
     for i in range(n):
